@@ -46,6 +46,12 @@ class ScopeMetrics:
             else f"[{self.trace_id}] [{self.identifier}]"
         )
         self._logger: Logger = logger or getLogger(name=scope)
+        # never attach to an already completed scope - it can't wait for this one anymore
+        # (e.g. when created by a task which inherited the context of an already exited scope),
+        # use the nearest predecessor which is still able to wait instead
+        while parent is not None and parent._completed.done():
+            parent = parent._parent
+
         self._parent: Self | None = parent if parent else None
         self._metrics: dict[type[State], State] = {}
         self._nested: list[ScopeMetrics] = []
